@@ -110,3 +110,35 @@ def clear(payload):
                 return {"status": "fail", "cases": cases, "detail": f"n_step={n}: stored transition starts from obs tagged {float(row['obs'].reshape(-1)[0])}, added before clear()",
                         "input": {"n_step": n, "before": before}}
     return {"status": "pass", "cases": cases}
+
+
+def per_nstep(payload):
+    """Prioritised 1-step buffer + n-step buffer filled alongside: the n-step batch drawn with the PER indices has one row per index
+    (same batch shape as the 1-step batch) and row k is the stored n-step transition idxs[k]."""
+    import torch
+    from tensordict import TensorDict
+    from agilerl.components.replay_buffer import MultiStepReplayBuffer, PrioritizedReplayBuffer, ReplayBuffer
+    cases = 0
+    for per in (True, False):
+        for n in (1, 3):
+            mem = PrioritizedReplayBuffer(max_size=32, alpha=0.6) if per else ReplayBuffer(max_size=32)
+            nmem = MultiStepReplayBuffer(max_size=32, n_step=n, gamma=0.9)
+            for t in range(12):
+                tr = TensorDict({"obs": torch.full((1, 3), float(t)), "action": torch.full((1, 1), float(t)), "reward": torch.ones((1, 1)),
+                                 "next_obs": torch.full((1, 3), t + 1.0), "done": torch.zeros((1, 1))}, batch_size=[1])
+                one = nmem.add(tr)
+                if one is not None:
+                    mem.add(one)
+            B = 4
+            torch.manual_seed(payload.get("seed", 0))
+            batch = mem.sample(B, 0.4) if per else mem.sample(B, return_idx=True)
+            nb = nmem.sample_from_indices(batch["idxs"])
+            cases += 1
+            if tuple(nb.batch_size) != tuple(batch.batch_size):
+                return {"status": "fail", "cases": cases, "witness_key": "per-nstep-index-shape",
+                        "detail": f"{'prioritised' if per else 'uniform'} buffer, n_step={n}: 1-step batch {tuple(batch.batch_size)} with obs {tuple(batch['obs'].shape)}, "
+                                  f"n-step batch drawn with its indices {tuple(nb.batch_size)} with obs {tuple(nb['obs'].shape)}", "input": {"per": per, "n_step": n}}
+            for k in range(B):
+                if float(nb["obs"][k].reshape(-1)[0]) != float(batch["obs"][k].reshape(-1)[0]):
+                    return {"status": "fail", "cases": cases, "detail": f"row {k}: n-step sample starts from another observation than the 1-step sample", "input": {"per": per, "n_step": n}}
+    return {"status": "pass", "cases": cases}
